@@ -15,6 +15,9 @@ open Negotiate DriverUtil
     est              -> stateChange(ESTABLISHED) on the current state; prints the state (estq: silently)
     peerdown         what the server does to the negotiated state when the session goes down
     recvmax t / sendmax t (t = 1 open 2 update 3 notification 4 keepalive 5 route-refresh, else unknown)
+    recvfits t total     -> 1 | 0   does the receive gate let a message of `total` octets (header included) through
+    sendwrites t total   -> octets sendMessageloop's `send` writes for a message that serialises to `total` octets (0 = skipped)
+    notifwrites total    -> octets fsm.sendNotification writes for a NOTIFICATION of `total` octets
     ticker / holdtimer -> none | seconds
 -/
 
@@ -166,6 +169,9 @@ def step (s : St) (ts : List String) : St × List String :=
   | ["estq"] => ({ s with ps := stateChange s.cfg s.ps s.opn }, [])
   | ["recvmax", t] => (s, [toString (recvMaxLen s.ps (msgType t))])
   | ["sendmax", t] => (s, [toString (sendMaxLen s.ps (msgType t))])
+  | ["recvfits", t, total] => (s, [b2s (recvFits s.ps (msgType t) (nat! total))])
+  | ["sendwrites", t, total] => (s, [toString (sendWrites s.ps (msgType t) (nat! total))])
+  | ["notifwrites", total] => (s, [toString (notifWrites (nat! total))])
   | ["ticker"] => (s, [optStr (tickerSecs s.ps)])
   | ["holdtimer"] => (s, [optStr (holdTimerSecs s.ps)])
   | [] => (s, [])
